@@ -6,6 +6,10 @@ def U(*a, **k): UNITS.append(Unit(*a, **k))
 # ---- C01 view algebra
 for d in (1, 2, 3):
     U('C01', 'C01_step.cpp', defines=dict(DIM=d, NB=3, SB=6), unwind=6, timeout=900)
+# the same step family called on a const lvalue (VCAT=1) and on an rvalue (VCAT=2): every operation has separate &, const& and && overloads
+for d in (1, 2, 3):
+    for vc in (1, 2):
+        U('C01', 'C01_step.cpp', defines=dict(DIM=d, NB=3 if d < 3 else 2, SB=6 if d < 3 else 4, VCAT=vc), unwind=6, timeout=900)
 U('C01', 'C01_step.cpp', defines=dict(DIM=4, NB=3, SB=4, FB=1), unwind=6, timeout=3000, tier='thorough')
 U('C01', 'C01_paren.cpp', defines=dict(DIM=2, NB=3, SB=4, KSTEPS=2), unwind=6, timeout=1200)
 U('C01', 'C01_paren.cpp', defines=dict(DIM=3, NB=2, SB=3, KSTEPS=2), unwind=6, timeout=1800)
@@ -49,6 +53,8 @@ U('C04', 'C04_value.cpp', defines=dict(DIM=1, NB=3, ELT='int', SLOT_CELLS=3), un
 U('C04', 'C04_value.cpp', defines=dict(DIM=2, NB=2, ELT='int', SLOT_CELLS=6), unwind=7, timeout=1800, heap=128, slots=2, tier='thorough')
 U('C04', 'C04_value.cpp', defines=dict(DIM=1, NB=2, ELT='Tr', SLOT_CELLS=3), unwind=5, timeout=1800, heap=128, slots=2)
 # D=0: copy/move construction of a 0-D array is ill-formed with assertions enabled (assert(this->stride() != 0) names a deleted function), hence -DNDEBUG
+U('C04', 'C04_value.cpp', name='C04_from_view_DIM3', defines=dict(DIM=3, NB=2, VB=4, ELT='int', SLOT_CELLS=8), entries=['construct_from_view_and_decay', 'assign_from_view_k0'], unwind=11, timeout=1800, heap=128, slots=2)   # D=3: views whose dimension order is permuted (compact or not)
+U('C04', 'C04_value.cpp', name='C04_from_view_DIM3_k1', defines=dict(DIM=3, NB=2, VB=4, ELT='int', SLOT_CELLS=8), entries=['assign_from_view_k1'], unwind=11, timeout=3600, heap=128, slots=3, tier='thorough')
 U('C04', 'C04_zero.cpp', defines=dict(SLOT_CELLS=1, NDEBUG=1), unwind=5, timeout=600, heap=128)
 U('C04', 'C04_value.cpp', defines=dict(DIM=2, NB=2, ELT='Tr', SLOT_CELLS=6), unwind=7, timeout=3600, heap=128, tier='thorough', slots=2)
 
@@ -73,6 +79,8 @@ U('C08', 'C06_reextent.cpp', name='C08_C06_reextent_DIM2_Tr', defines=dict(DIM=2
 KF09 = {e + '_kf': 'C09-ctor-leak' for e in ('ctor_extents_value', 'ctor_extents', 'ctor_copy', 'ctor_from_view', 'assign_from_view')}
 U('C09', 'C09_fault.cpp', defines=dict(DIM=1, NB=2, ELT='Tr', SLOT_CELLS=3, KMAX=10), unwind=6, timeout=1800, heap=128, slots=2, kf=KF09)
 U('C09', 'C09_fault.cpp', defines=dict(DIM=2, NB=2, ELT='Tr', SLOT_CELLS=4, KMAX=16), unwind=7, timeout=3600, heap=128, slots=3, tier='thorough', kf=KF09)
+# D=2 in the quick tier for the operations with hand-written recovery code (size() != num_elements() only shows for D>=2)
+U('C09', 'C09_fault.cpp', name='C09_fault_DIM2_quick', defines=dict(DIM=2, NB=2, ELT='Tr', SLOT_CELLS=4, KMAX=16), entries=['reextent', 'reextent_fill', 'copy_assign_k1'], unwind=7, timeout=1800, heap=128, slots=2)
 
 # ---- C10 allocator identity and propagation: 8 trait combinations (compile-time) x symbolic instance ids
 for cca in (0, 1):
@@ -81,6 +89,7 @@ for cca in (0, 1):
             quick = (cca, cma, cs) in ((0, 0, 0), (1, 1, 1), (0, 1, 0), (1, 0, 0))
             U('C10', 'C10_alloc.cpp', defines=dict(DIM=1, NB=2, CFG_POCCA=cca, CFG_POCMA=cma, CFG_POCS=cs, SLOT_CELLS=2), unwind=5, timeout=1800, heap=128, tier='quick' if quick else 'thorough')
 U('C10', 'C10_alloc.cpp', defines=dict(DIM=2, NB=2, CFG_POCCA=0, CFG_POCMA=0, CFG_POCS=0, SLOT_CELLS=4), unwind=7, timeout=3600, heap=128, tier='thorough')
+U('C10', 'C10_alloc.cpp', name='C10_alloc_DIM2_quick', defines=dict(DIM=2, NB=2, CFG_POCCA=0, CFG_POCMA=0, CFG_POCS=0, SLOT_CELLS=4), entries=['move_construct', 'move_assign'], unwind=7, timeout=1800, heap=128, slots=2)   # element-wise fallbacks for unequal allocators at D=2 (size() != num_elements())
 
 # ---- C12 projection views
 U('C12', 'C12_project.cpp', defines=dict(DIM=1, NB=3, SB=4, MEMSZ2=16), unwind=6, timeout=900, heap=256)
@@ -144,7 +153,6 @@ U('C03', 'C03_algo.cpp', name='C03_elements_light', defines=dict(RANGE=2, NB=2, 
 ROWS_LIGHT = ['rows_reverse', 'rows_swap_ranges', 'rows_copy_move_backward', 'rows_shift_right', 'rows_fill', 'rows_partition']
 U('C03', 'C03_rows.cpp', name='C03_rows_light', defines=dict(NB=2, SB=3, MEMSZ2=12, VF_ROOT_CELLS=12), entries=ROWS_LIGHT, unwind=7, timeout=1200, heap=512, stubs=ALGO_STUBS)
 U('C03', 'C03_rows.cpp', name='C03_rows_heavy', defines=dict(NB=2, SB=3, MEMSZ2=12, VF_ROOT_CELLS=12), entries=['rows_queries', 'rows_remove_unique'], unwind=7, timeout=3600, heap=512, stubs=ALGO_STUBS, tier='thorough', slots=4)
-U('C03', 'C03_rows.cpp', name='C03_rows_try', defines=dict(NB=2, SB=3, MEMSZ2=12, VF_ROOT_CELLS=12), entries=['rows_rotate', 'rows_sort'], unwind=7, timeout=2400, heap=512, stubs=ALGO_STUBS, tier='thorough', slots=4)
 U('C03', 'C03_algo.cpp', name='C03_1d_heavy', defines=dict(RANGE=1, NB=3, SB=2, MEMSZ2=8, VF_ROOT_CELLS=8), entries=['rotate', 'partial_sort'], unwind=6, timeout=3600, heap=512, stubs=ALGO_STUBS, tier='thorough', slots=4)
 
 # C19 also runs the C01 step family itself (every view-forming operation applied to views with symbolic index bases in [-2,2])
